@@ -208,4 +208,18 @@ example : Mem Env.empty (.obj []) (varsTsL (fun n => .ref n) true [{ name := "a"
   C09_complete (e := Env.empty) (fun n => .ref n) (fun n v => v = .atom n) (fun _ _ => mem_unresolved_ref_iff) true _ _
     ⟨[], rfl, by simp [RecordSpec, J.get, GType.isNonNull]⟩
 
+
+/-! ### OPEN — carried by K/O only
+
+* The closed forms `Mem (Env.ofFiles opFile [(m, schemaFile c S)]) v (ref "<Op>Variables") → Coercible c S vars v` and
+  `Explicit c S vars v → Mem …`, i.e. the instantiation of the leaf interpretation `L n = globalise … (qref [Schema,
+  __OperationInput, n])`, `R n = Ref c S .operationInput n` (C10's exactness for the input namespace through the
+  module link) and of `RC` with the executable `Coerce.coerceVal`. The O stream evaluates exactly these closed forms
+  on the REAL operation file linked with the REAL schema file.
+* `Spec/Coerce.lean`'s fuel-indexed executable `coercibleVars` / `explicitVars` versus the propositions `CoercibleP` /
+  `ExplicitP` used here (same clauses; not connected by a theorem).
+* The side conditions `hnull` / `habs` (no canonical set of a named input type contains null / undefined) exclude
+  scalar input texts such as `unknown`; the harness puts operations that reach such a scalar outside the O domain.
+-/
+
 end NitroVerif.Props.C09
